@@ -205,6 +205,7 @@ pub fn arb_prov() -> impl Strategy<Value = Prov> {
         1 => (0..NT).prop_map(Prov::AddVec),
         1 => arb_nat_ty().prop_map(Prov::SubNat),
         1 => (0..NT).prop_map(Prov::OrLonger),
+        2 => any::<u16>().prop_map(Prov::TruncThenPush),
     ]
 }
 
